@@ -23,7 +23,10 @@ ASSUME = [
     "is only correct without the map cache is a concrete failure",
     "per-request filter state is private (theorem C20_interleaved_requests_private assumes dec_of = private): checked on the "
     "real pool by the deterministic pool stream (distinct filter objects and decoders for filters held at once, after a "
-    "big document) and by concurrent requests",
+    "big document, and after Fetches whose stream is cancelled mid-way) and by concurrent requests; C20_pool_exclusive "
+    "models sync.Pool as 'Get returns any pooled object or a new one' (objects dropped by the GC are not modelled)",
+    "field names are arbitrary byte strings of any length (ids in the model); the run uses names of 0, 1, 62-65, 127, 128, "
+    "255, 300 and 517 bytes (ASCII label-like and multi-byte UTF-8), present in documents and listed in filters",
     "documents have fewer than 2^24 top-level fields (width of insane-json's index and dirty-sequence bit fields)",
     "documents with duplicate keys are judged by the property text read on (key, value) pairs: every occurrence of a "
     "listed key is kept (allow) / removed (except); stream dupkeys-* is a permanent regression class (finding repaired by "
@@ -40,7 +43,9 @@ RULE = ("random JSON objects (0..30 top-level fields; strings with every escape 
         "through a filter, release, then 3-5 filters held at once (identity of filter/decoder objects, interleaved use); "
         "concurrency: 6 requests at once for some hundred iterations, unit level (held filters, yield between documents) and "
         "in a child process on a 2-shard cluster with 70-200 KB documents (proxy fetch / store Fetch / search with pipe over "
-        "disjoint ID sets), outputs de-duplicated per (request, document, output). non-trivial = document of >= 3 fields where the filter removes at least one field and keeps at least one / "
+        "disjoint ID sets), preceded by Fetches whose stream fails after k = 0, 1, 3, 9 documents with the context cancelled "
+        "(in-process stream on every store, and the real gRPC client through the proxy), outputs de-duplicated per (request, "
+        "document, output). non-trivial = document of >= 3 fields where the filter removes at least one field and keeps at least one / "
         "pipe with >= 2 names / page of >= 2 documents / request set for >= 2 sources from a list with a repeated name; distinct by input")
 
 
